@@ -257,16 +257,18 @@ alert_cases(long long seed, long idx, int desc_stride)
 	static const int levels[] = { 0, 1, 2, 3, 255 };
 	char what[300];
 	vf_rng_init(&r, (uint64_t)seed, (uint64_t)idx * 3 + 3);
-	/* phases: 0 = after handshake idle; 1 = after some data; 2,3 = during the handshake (plaintext) */
-	for (phase = 0; phase < 4; phase ++) {
+	/* phases: 0 = after handshake idle; 1 = after some data; 2,3 = during the handshake (plaintext); 4 = the receiver's
+	   application has asked for closure and its close_notify is out (it waits for the peer's); 5 = the receiver has
+	   started a renegotiation (its ClientHello / HelloRequest is out) */
+	for (phase = 0; phase < 6; phase ++) {
 		tp_ep *RX;
 		rm_cipher cs0;
 		int li, d;
 		long step = 0;
 		memset(&s, 0, sizeof s);
-		if (phase < 2) {
+		if (phase < 2 || phase >= 4) {
 			if (!sess_start(&s, &r, idx, TP_CHUNK_WHOLE, 0, 0)) { TP_VIOL("setup", "handshake failed"); sess_end(&s); continue; }
-			if (phase == 1) { tp_run_data(&s.p, 300, 300, TP_W_SMALL, 100000); tp_settle(&s.p, 10000); }
+			if (phase != 0) { tp_run_data(&s.p, 300, 300, TP_W_SMALL, 100000); tp_settle(&s.p, 10000); }
 		} else {
 			/* stop the handshake midway: after `k` pump steps */
 			int lay = 0;
@@ -306,6 +308,14 @@ alert_cases(long long seed, long idx, int desc_stride)
 		}
 		RX = dir == 0 ? &s.p.s : &s.p.c;
 		if (tp_ep_closed(RX)) { sess_end(&s); continue; }
+		if (phase >= 4) {
+			tp_fifo tmp; tp_fifo_init(&tmp);
+			if (phase == 4) { br_ssl_engine_close(RX->eng); tp_calls ++; tp_check(RX, "close"); }
+			else if (!tp_act_reneg(RX)) { TP_VIOL("reneg:refused", "br_ssl_engine_renegotiate returned 0 on an idle connection"); tp_fifo_free(&tmp); sess_end(&s); continue; }
+			while (!tp_ep_closed(RX) && (br_ssl_engine_current_state(RX->eng) & BR_SSL_SENDREC)) tp_act_sendrec(RX, &tmp, 100000);
+			tp_fifo_free(&tmp);
+			if (tp_ep_closed(RX)) { TP_VIOL("alert:setup", "engine closed before the peer answered"); sess_end(&s); continue; }
+		}
 		/* the endpoint must be at a record boundary to take an injected record: drain its input first */
 		cs0 = s.pm.m.rm.cs[dir];
 		tp_snap_take(&sn, RX);
@@ -357,7 +367,7 @@ alert_cases(long long seed, long idx, int desc_stride)
 				expect_fatal = level != 1;      /* fatal (2) and unknown levels are fatal */
 				if (level == 1 && d == 0) {
 					/* close_notify: orderly closure is triggered (the engine answers and closes) */
-					if (phase >= 2) { vf_stat("close_notify_during_handshake", 1); continue; }
+					if (phase == 2 || phase == 3 || phase == 5) { vf_stat("close_notify_during_handshake", 1); continue; }
 					if (!(tp_ep_closed(RX) && br_ssl_engine_last_error(RX->eng) == 0)) {
 						snprintf(what, sizeof what, "close_notify received but engine state=%u err=%d", br_ssl_engine_current_state(RX->eng), br_ssl_engine_last_error(RX->eng));
 						TP_VIOL("alert:close-notify-not-honoured", what);
@@ -378,6 +388,30 @@ alert_cases(long long seed, long idx, int desc_stride)
 					if (tp_ep_closed(RX)) {
 						snprintf(what, sizeof what, "warning alert (description %d) closed the connection: last_error=%d", d, br_ssl_engine_last_error(RX->eng));
 						TP_VIOL("alert:warning-closed-connection", what);
+					} else if (phase == 4) {
+						/* closing: a following data record is discarded, not delivered, and the peer's close_notify then
+						   ends the connection in order */
+						unsigned char data[16], rec2[300], cn[2] = { 1, 0 };
+						size_t i, rl2, fed2 = 0;
+						for (i = 0; i < sizeof data; i ++) data[i] = tp_stream_byte(RX->rx_key, RX->rx_done + i);
+						rl2 = rm_seal(&cs, 23, data, sizeof data, &fo, &r, 1, rec2);
+						rl2 += rm_seal(&cs, 21, cn, 2, &fo, &r, 1, rec2 + rl2);
+						guard = 0;
+						while (guard ++ < 1000 && !tp_ep_closed(RX) && fed2 < rl2) {
+							size_t l; unsigned char *b;
+							if (br_ssl_engine_recvapp_buf(RX->eng, &l)) { tp_act_read(RX, l); continue; }
+							b = br_ssl_engine_recvrec_buf(RX->eng, &l);
+							if (b == NULL) break;
+							if (l > rl2 - fed2) l = rl2 - fed2;
+							memcpy(b, rec2 + fed2, l); fed2 += l;
+							br_ssl_engine_recvrec_ack(RX->eng, l);
+							tp_calls ++; tp_check(RX, "recvrec_ack");
+						}
+						if (RX->rx_done != rx_before) TP_VIOL("close:data-delivered-after-close-request", "application data that arrived after the local close request was delivered");
+						else if (!tp_ep_closed(RX) || br_ssl_engine_last_error(RX->eng) != 0) {
+							snprintf(what, sizeof what, "closing engine after warning, data and close_notify: state=%u err=%d", br_ssl_engine_current_state(RX->eng), br_ssl_engine_last_error(RX->eng));
+							TP_VIOL("close:closing-engine-did-not-end-cleanly", what);
+						} else vf_stat("warnings_ignored_while_closing", 1);
 					} else if (phase < 2) {
 						/* a following data record must still be accepted and delivered in order */
 						unsigned char data[16], rec2[200];
